@@ -611,6 +611,10 @@ impl<'value, 'loc: 'value, 'eval> BlockScope<'value, 'loc, 'eval> {
         } else {
             result
         };
+        self.scope
+            .resolved_variables
+            .insert(variable_name, result.clone());
+
         Ok(result)
     }
 }
